@@ -20,22 +20,8 @@ ALGS = sorted(a for a in hashlib.algorithms_guaranteed
 CHUNKS = (1, 2, 7, 64, 4096, 65536)
 ERRNOS = sorted(errno.errorcode)
 
-_SCR = {}
-
-
 def scratch_root():
-    d = _SCR.get('dir')
-    if d is None or _SCR.get('pid') != os.getpid():
-        base = os.environ.get('VERIF_SCRATCH')
-        if base:
-            os.makedirs(base, exist_ok=True)
-        d = tempfile.mkdtemp(prefix='verif-c20-', dir=base or (
-            '/dev/shm' if os.path.isdir('/dev/shm') else None))
-        _SCR['dir'] = d
-        _SCR['pid'] = os.getpid()
-        import atexit
-        atexit.register(shutil.rmtree, d, True)
-    return d
+    return core.scratch_dir('c20')
 
 
 def content_of(spec):
